@@ -363,6 +363,26 @@ func C19(c *core.Ctx) {
 				Seed: int(c.Seed)*1000 + id, Procs: []int{16, 2, 1}[s%3]})
 		}
 	}
+	// valuation with a mapping: the valuation stage creates a new account (Income:<path>) on most days while the query
+	// stage, days behind, looks up shortened accounts in the same registry
+	{
+		var b strings.Builder
+		b.WriteString("2020-01-01 open Equity:Equity\n2020-01-01 price USD 0.9 CHF\n")
+		nday := 90
+		for k := 0; k < nday; k++ {
+			fmt.Fprintf(&b, "2020-01-01 open Assets:D%d:Sub:Leaf\n", k)
+		}
+		for k := 0; k < nday; k++ {
+			z := 18263 + k
+			fmt.Fprintf(&b, "\n%s price USD 0.%d CHF\n%s \"buy %d\"\nEquity:Equity Assets:D%d:Sub:Leaf %d USD\n", kj.Day(z), 80+k%19, kj.Day(z), k, k, 10+k)
+		}
+		lay := &kj.Layout{Root: "main.knut", Files: map[string]string{"main.knut": b.String()}, Order: []string{"main.knut"}}
+		for s := 0; s < c.Pick(12, 40); s++ {
+			id++
+			scs = append(scs, c19Scenario{ID: id, Layout: lay, Cmd: [][]string{{"balance", "--color=false", "-v", "CHF", "-m", "2,."}, {"balance", "--color=false", "-v", "CHF", "-m", "1:1,^Assets", "--months"}, {"register", "--color=false", "-v", "CHF", "-m", "2,."}}[s%3], Variant: "none", TrxExpected: -1, Files: 1,
+				Seed: int(c.Seed)*1000 + id, Procs: []int{16, 4, 16, 8}[s%4]})
+		}
+	}
 	// a few large files (hundreds of directives each) whose directives fall on the same days: the days of the journal
 	// are filled from several files at once; the totals are asserted
 	for k := 0; k < c.Pick(1, 3); k++ {
